@@ -4,7 +4,7 @@
    with n universally quantified (every byte offset), rs the committed records, ps the session's puts. *)
 From Coq Require Import NArith List Bool.
 Import ListNotations.
-From Molli Require Import Model.UKV Proofs.UKVBase Proofs.UKV Proofs.UKVCrash.
+From Molli Require Import Model.UKV Proofs.UKVBase Proofs.UKV Proofs.UKVCrash Proofs.UKVCrashChain.
 Open Scope N_scope.
 
 (* Reopening a crash image (fresh handle after the process died, or another process's handle with a stale
@@ -49,6 +49,55 @@ Theorem C03_recover_append : forall H rs ps n nh i,
              Inv H (rs ++ complete n ps) (H ++ blocks (rs ++ complete n ps), upd (repeat h0 nh) i h').
 Proof. exact crash_recover. Qed.
 Print Assumptions C03_recover_append.
+
+(* ANY NUMBER of crashing sessions in a row (unbounded induction over the list of sessions): every session
+   reopens for append -- recover = the model's own open_ on the real bytes the previous death left --, writes
+   the blocks of its puts and dies after an arbitrary number n of bytes.  The file after the chain is exactly
+   the header and the complete blocks of  committed ++ (per session, the puts wholly inside its n bytes),
+   with no torn bytes left anywhere in the middle. *)
+Theorem C03_crash_chain : forall H ss rs,
+  hdr_ok H -> Forall wfkv (rs ++ all_puts ss) -> NoDup (map fst (rs ++ all_puts ss)) ->
+  chain (H ++ blocks rs) ss = H ++ blocks (chain_records rs ss)
+  /\ Forall wfkv (chain_records rs ss) /\ NoDup (map fst (chain_records rs ss)).
+Proof. exact crash_chain. Qed.
+Print Assumptions C03_crash_chain.
+
+(* a record committed before the first crash keeps its exact value however many sessions die after it *)
+Theorem C03_crash_chain_committed : forall H ss rs k v,
+  hdr_ok H -> Forall wfkv (rs ++ all_puts ss) -> NoDup (map fst (rs ++ all_puts ss)) ->
+  assoc rs k = Some v ->
+  chain (H ++ blocks rs) ss = H ++ blocks (chain_records rs ss) /\ assoc (chain_records rs ss) k = Some v.
+Proof. exact crash_chain_committed. Qed.
+Print Assumptions C03_crash_chain_committed.
+
+(* after the chain a writer that reopens the file has the C02 invariant for exactly chain_records *)
+Theorem C03_crash_chain_inv : forall H ss rs nh i,
+  hdr_ok H -> Forall wfkv (rs ++ all_puts ss) -> NoDup (map fst (rs ++ all_puts ss)) -> (i < nh)%nat ->
+  exists h', open_ (chain (H ++ blocks rs) ss) h0 MA = (H ++ blocks (chain_records rs ss), h') /\
+             Inv H (chain_records rs ss) (H ++ blocks (chain_records rs ss), upd (repeat h0 nh) i h').
+Proof. exact crash_chain_inv. Qed.
+Print Assumptions C03_crash_chain_inv.
+
+(* Non-vacuity: three sessions die in a row -- inside a value, inside a length field, after a whole record. *)
+Example C03_chain_nonvacuous :
+  let H := mk_header (repeat 77 16) [] [] in
+  let rs := [([1], [10; 11])] in
+  let ss := [([([2], [20]); ([3], [30; 31; 32])], 12%nat); ([([4], [40; 41])], 3%nat); ([([5], [50])], 200%nat)] in
+  chain_records rs ss = [([1], [10; 11]); ([2], [20]); ([5], [50])] /\
+  chain (H ++ blocks rs) ss = H ++ blocks [([1], [10; 11]); ([2], [20]); ([5], [50])].
+Proof. vm_compute. split; reflexivity. Qed.
+
+(* A test, not a theorem: on this instance the chain is the operational model `run` (the one the correspondence
+   check drives against the real UKVFile, with its Crash op = "the file keeps its first n bytes, every handle
+   object is new") -- three writing sessions, the first two killed 12 and 3 bytes into their appends. *)
+Example C03_chain_agrees_with_run :
+  let H := mk_header (repeat 77 16) [] [] in
+  let f0 := H ++ blocks [([1], [10; 11])] in
+  fst (snd (run (f0, repeat h0 1) [Open 0 MA; Put 0 [2] [20]; Put 0 [3] [30; 31; 32]; Crash (len f0 + 12);
+                                    Open 0 MA; Put 0 [4] [40; 41]; Crash (len f0 + 7 + 3);
+                                    Open 0 MA; Put 0 [5] [50]; Close 0]))
+  = chain f0 [([([2], [20]); ([3], [30; 31; 32])], 12%nat); ([([4], [40; 41])], 3%nat); ([([5], [50])], 200%nat)].
+Proof. vm_compute. reflexivity. Qed.
 
 (* Non-vacuity: a two-put session cut inside the value of its second record. *)
 Example C03_nonvacuous :
